@@ -34,6 +34,7 @@ type ModClause struct {
 
 type LoopContract struct {
 	Invariants []*Clause
+	Steps      []*Clause // asserted at every back edge, never assumed; prev(e) = e at the head of the iteration
 	Decreases  *Clause
 }
 
@@ -71,6 +72,7 @@ type Contract struct {
 	AtReturn     []*Clause // assertions checked at every return, local variables visible
 	Ticks        map[string]string // callee short name -> ghost global incremented at each call
 	ChanEvents   bool              // channel operations update the ghost globals sends/recvs/dones/timeouts
+	Recovers     bool              // the function recovers panics in a deferred guard; its clauses are NOT established on such exits (assumption)
 	Counts       map[string]string // callee short name -> ghost counter of calls
 	Observe      map[string]string // callee short name -> ghost variable holding its last result
 	Before       map[string][]*Clause // callee short name -> assertions checked before each call
@@ -456,6 +458,8 @@ func parseContractFile(path, pkgPath string) (*PkgSpec, error) {
 					cur.LoopsHavocOnly = true
 				case "channel_events":
 					cur.ChanEvents = true
+				case "recovers":
+					cur.Recovers = true
 				case "native_strings":
 					cur.NativeStr = true
 				default:
@@ -463,7 +467,7 @@ func parseContractFile(path, pkgPath string) (*PkgSpec, error) {
 				}
 			}
 		case strings.HasPrefix(t, "loop "):
-			m := regexp.MustCompile(`^loop\s+(\d+)\s+(invariant|decreases)\s+(.*)$`).FindStringSubmatch(t)
+			m := regexp.MustCompile(`^loop\s+(\d+)\s+(invariant|decreases|step)\s+(.*)$`).FindStringSubmatch(t)
 			if m == nil {
 				return nil, fail(fmt.Errorf("bad loop clause"))
 			}
@@ -479,6 +483,8 @@ func parseContractFile(path, pkgPath string) (*PkgSpec, error) {
 			}
 			if m[2] == "invariant" {
 				lc.Invariants = append(lc.Invariants, c)
+			} else if m[2] == "step" {
+				lc.Steps = append(lc.Steps, c)
 			} else {
 				lc.Decreases = c
 			}
